@@ -5,7 +5,8 @@ model-checked; TLC generates (a) every history of <= 2/3 request classes (Reques
 (b) every history of explicit id sequences of the cache model; the harness replays them on a real
 Model through run / partial_run / run_one; Trace_Requests classifies every request with RunRequests.tla
 (ids unknown/duplicated/non-value, missing required inputs, dtype/rank/fixed-dim mismatch against the
-declared metadata) and requires `err` (never ok, never panic) for the invalid ones."""
+declared metadata) and requires `err` (never ok, never panic) for the invalid ones. The sequential histories are replayed with
+two builds of the harness: release, and `checked` (overflow checks + debug assertions)."""
 import sys, os
 sys.path.insert(0, os.path.dirname(__file__))
 import vlib
@@ -14,6 +15,9 @@ import _reqlib
 
 def run(ctx):
     ctx.build(["vh-graph"])
+    # second build: the same code with overflow checks and debug assertions compiled in (the panics a debug
+    # build would raise on an invalid request are violations of "reported as errors" too)
+    ctx.build(["vh-graph"], profile="checked")
     if ctx.replay:
         raise vlib.ToolError("re-run the tier with seed %s (requests are derived from the seed)" % ctx.replay.get("seed"))
     ctx.tlc_mc("graph/MC_PlanCache", "graph/MC_PlanCache.cfg" if ctx.quick else "graph/MC_PlanCache_thorough.cfg",
@@ -30,7 +34,10 @@ def run(ctx):
     ctx.harness("vh-graph", ["requests", "--mode", "seq", "--hist", h1, "--out", t1])
     ctx.harness("vh-graph", ["requests", "--mode", "seq", "--hist", h2, "--out", t2])
     ctx.harness("vh-graph", ["requests", "--mode", "conc", "--cases", 10 if ctx.quick else 200, "--threads", 0, "--calls", 20, "--out", t3])
-    stats = _reqlib.validate(ctx, [t1, t2, t3], "C26", "vh-graph requests")
+    t1c, t2c = ctx.path("req_classes_checked.ndjson"), ctx.path("req_explicit_checked.ndjson")
+    ctx.harness("vh-graph", ["requests", "--mode", "seq", "--hist", h1, "--out", t1c], profile="checked")
+    ctx.harness("vh-graph", ["requests", "--mode", "seq", "--hist", h2, "--out", t2c], profile="checked")
+    stats = _reqlib.validate(ctx, [t1, t2, t3, t1c, t2c], "C26", "vh-graph requests")
     total, distinct, samples = _reqlib.scan([t1, t2, t3])
     ctx.cov.update({"evaluations": total, "distinct_nontrivial": distinct, "traces_validated_against_impl": n1 + n2,
                     "invalid_requests_judged": stats["invalid_calls"], "plan_cache_hits": stats["cache_hits"],
